@@ -346,6 +346,8 @@ def check(prop, tier, master, workers, budget_s, nruns, repo, write_evidence=Tru
             "abstract_transitions": len(agg["trans"]),
             "last_run_with_new_transition": last_new_state_run,
             "state_event_pairs": len(agg["pairs"]),
+            "pending_subsets_reached": len({p.split("|")[0] for p in agg["pairs"]}),
+            "pending_subsets_possible": 2 ** len(E.LAZY_GROUPS),
             "generations": gen_log[-40:],
             "components": {"real": ["CPython %s" % platform.python_version(), "periodictable (working tree)",
                                     "numpy", "pyparsing", "pickle", "data files"], "stubbed": []},
